@@ -671,6 +671,67 @@ def check_flag_resets(run, f, rule='R9.reset'):
     return n
 
 
+def check_buffer_resets(run, f, rule='R9.reset'):
+    """A work buffer that is filled element-wise at a loop-dependent position inside a loop and consumed as a whole inside the
+    same loop must be created (or cleared) inside that loop: if it is only created before the loop, the entries written for one
+    item are still set when the next item is consumed (an observable buffer then holds Z_a Z_b instead of Z_b)."""
+    stmts = list(walk(f.node))
+    n = 0
+    for L, lctx in stmts:
+        if not isinstance(L, (ast.For, ast.While)):
+            continue
+        lvars = {x.id for x in ast.walk(L.target) if isinstance(x, ast.Name)} if isinstance(L, ast.For) else set()
+        inside = [(st, ctx) for st, ctx in stmts if L in ctx.loops]
+        # names derived from the loop variable inside the loop count as loop-dependent too
+        dep = set(lvars)
+        for _ in range(3):
+            for st, ctx in inside:
+                if isinstance(st, ast.Assign) and isinstance(st.targets[0], ast.Name) and any(
+                        isinstance(x, ast.Name) and x.id in dep for x in ast.walk(st.value)):
+                    dep.add(st.targets[0].id)
+        stores = {}
+        for st, ctx in inside:
+            if isinstance(st, ast.Assign) and isinstance(st.targets[0], ast.Subscript) and isinstance(st.targets[0].value, ast.Name) \
+                    and isinstance(st.value, ast.Constant):
+                v = st.targets[0].value.id
+                if v in f.params:
+                    continue
+                if any(isinstance(x, ast.Name) and x.id in dep for x in ast.walk(st.targets[0].slice)):
+                    stores.setdefault(v, []).append(st)
+        for v, sts in sorted(stores.items()):
+            whole = []
+            for st, ctx in inside:
+                for x in ast.walk(st):
+                    if isinstance(x, ast.Call):
+                        for a in list(x.args) + [k.value for k in x.keywords]:
+                            if isinstance(a, ast.Name) and a.id == v:
+                                whole.append(st)
+            if not whole:
+                continue          # consumed after the loop: an accumulating buffer
+            rebuilt = [st for st, ctx in inside if isinstance(st, ast.Assign) and any(isinstance(t, ast.Name) and t.id == v for t in st.targets)]
+            last_use = max(w.lineno for w in whole)
+            allst = [st for st, ctx in inside if isinstance(st, ast.Assign) and isinstance(st.targets[0], ast.Subscript)
+                     and isinstance(st.targets[0].value, ast.Name) and st.targets[0].value.id == v]
+            cleared = [st for st in allst if st.lineno > last_use or st not in sts]
+            sts = [st for st in sts if st not in cleared]
+            if not sts:
+                continue
+            n += 1
+            if cleared and not rebuilt:
+                # the same slot is written back to a constant after the last whole use: cleared by hand
+                idx = {norm(s2.targets[0].slice) for s2 in sts}
+                if all(norm(c.targets[0].slice) in idx and isinstance(c.value, ast.Constant) and c.lineno > last_use for c in cleared):
+                    run.ok(rule, f, sts[0], 'buffer `%s` is cleared at the same position after its use' % v)
+                else:
+                    run.undecided(rule, f, sts[0], 'buffer `%s` is written at several places inside the loop; whether it is cleared is not decided' % v)
+                continue
+            run.check(bool(rebuilt) and min(r.lineno for r in rebuilt) < min(s2.lineno for s2 in sts), rule, f, sts[0],
+                      'the buffer `%s` is filled at a position that depends on the loop variable and consumed as a whole inside the loop (%s), '
+                      'but it is created before the loop and never cleared: the entry written for one item is still set for the next'
+                      % (v, norm(whole[0])[:80]))
+    return n
+
+
 def scan_sequence(k, N, r):
     """Row indices in the order the row loop visits them."""
     lp = k.row_loop
